@@ -41,17 +41,25 @@ let sx_event = function
 let () = main_loop (fun x ->
   ignore (force_types O N0);
   match x with
-  | L [L [nf; nc; th; mt]; L [L fs; st; lf; clk]; L ks; L evs] ->
-    let c = { nfiles = sx_nat nf; nchunks = sx_nat nc; threshold = sx_nat th; max_tries = sx_nat mt } in
-    let s = { files_of = List.map sx_file fs; stamp = sx_stamp st; lockfile = sx_bool lf; flock = None;
-              clock = sx_nat clk; netreqs = O } in
+  | L [L [nf; nc; th; mt; ul]; L [L fs; st; lf; clk]; L ks; L evs] ->
+    let c = { nfiles = sx_nat nf; nchunks = sx_nat nc; threshold = sx_nat th; max_tries = sx_nat mt;
+              unlink_on_release = sx_bool ul } in
+    let has_lf = sx_bool lf in
+    let s = { files_of = List.map sx_file fs; stamp = sx_stamp st;
+              lockfile = (if has_lf then Some O else None); locks = [];
+              next_ino = (if has_lf then S O else O); clock = sx_nat clk; netreqs = O } in
     let w = { sh = s; procs = List.map (fun k -> start (sx_kind k)) ks } in
     let evs = List.map sx_event evs in
     let tr = trace c w evs in
-    let w' = run c w evs in
+    (* who is inside "with CacheLock" after each event *)
+    let inside w = L (List.concat (List.mapi (fun i r -> if holding r.pc_of then [A (string_of_int i)] else []) w.procs)) in
+    let rec go w es acc = match es with [] -> (w, List.rev acc) | e :: t -> let w1 = step c w e in go w1 t (inside w1 :: acc) in
+    let (w', ins) = go w evs [] in
     L [A "ok";
        L (List.map (function None -> A "-" | Some p -> pc_sx p) tr);
-       L (List.map file_sx w'.sh.files_of); stamp_sx w'.sh.stamp; bool_sx w'.sh.lockfile;
-       (match w'.sh.flock with None -> A "-" | Some p -> nat_sx p); nat_sx w'.sh.netreqs;
-       L (List.map (fun r -> L [pc_sx r.pc_of; nat_sx r.tries; bool_sx r.populated; bool_sx r.cache_err]) w'.procs)]
+       L (List.map file_sx w'.sh.files_of); stamp_sx w'.sh.stamp;
+       bool_sx (match w'.sh.lockfile with None -> false | Some _ -> true);
+       L (List.map (fun (i, p) -> L [nat_sx i; nat_sx p]) w'.sh.locks); nat_sx w'.sh.netreqs;
+       L (List.map (fun r -> L [pc_sx r.pc_of; nat_sx r.tries; bool_sx r.populated; bool_sx r.cache_err]) w'.procs);
+       L ins]
   | _ -> failwith "bad-input")
